@@ -8,6 +8,7 @@ import (
 	"io"
 	"net/url"
 	"path/filepath"
+	"sort"
 	"strings"
 
 	"github.com/valyala/fastjson"
@@ -372,15 +373,13 @@ func irisEqual(i1, i2 IRI, checkScheme bool) bool {
 		if len(uqv) != len(uwqv) {
 			return false
 		}
-		for _, uqvv := range uqv {
-			eq := false
-			for _, uwqvv := range uwqv {
-				if uwqvv == uqvv {
-					eq = true
-					continue
-				}
-			}
-			if !eq {
+		// NOTE(marius): the values of a repeated key are compared as multisets
+		sortedV := append([]string(nil), uqv...)
+		sortedVW := append([]string(nil), uwqv...)
+		sort.Strings(sortedV)
+		sort.Strings(sortedVW)
+		for i := range sortedV {
+			if sortedV[i] != sortedVW[i] {
 				return false
 			}
 		}
